@@ -366,8 +366,8 @@ fn oracle(c: &Case, acc: &mut Acc) -> CaseResult {
             ensure!(draws.len() >= 2 && d1.privkey() == &draws[0][..], "{kind:?}: generated private key is not the bytes drawn from the RNG");
             // the two parties agree
             let (mut o1, mut o2) = ([0u8; 65], [0u8; 65]);
-            d1.dh(d2.pubkey(), &mut o1).map_err(|x| Fail::new(format!("{x:?}")))?;
-            d2.dh(d1.pubkey(), &mut o2).map_err(|x| Fail::new(format!("{x:?}")))?;
+            d1.dh(d2.pubkey(), &mut o1).map_err(|x| Fail::setup(format!("{x:?}")))?;
+            d2.dh(d1.pubkey(), &mut o2).map_err(|x| Fail::setup(format!("{x:?}")))?;
             ensure!(o1[..32] == o2[..32], "{kind:?}: DH not symmetric");
             acc.label(format!("dh_generate:{}", kind.name()));
             acc.nontrivial(&format!("{c:?}"));
@@ -379,7 +379,7 @@ fn oracle(c: &Case, acc: &mut Acc) -> CaseResult {
             let u = hex::decode("e6db6867583030db3594c1a424b15f7c726624ec26b3353b10a903a6d0ab1c4c").unwrap();
             d.set(&k);
             let mut out = [0u8; 32];
-            d.dh(&u, &mut out).map_err(|x| Fail::new(format!("{x:?}")))?;
+            d.dh(&u, &mut out).map_err(|x| Fail::setup(format!("{x:?}")))?;
             ensure!(hex::encode(out) == "c3da55379de9c6908e94ea4df28d084f32eccf03491c71f754b4075577a28552", "RFC 7748 5.2 vector 1");
             let a = hex::decode("77076d0a7318a57d3c16c17251b26645df4c2f87ebc0992ab177fba51db92c2a").unwrap();
             d.set(&a);
@@ -393,7 +393,7 @@ fn oracle(c: &Case, acc: &mut Acc) -> CaseResult {
             );
             let peer = hex::decode("04D12DFB5289C8D4F81208B70270398C342296970A0BCCB74C736FC7554494BF6356FBF3CA366CC23E8157854C13C58D6AAC23F046ADA30F8353E74F33039872AB").unwrap();
             let mut o = [0u8; 32];
-            p.dh(&peer, &mut o).map_err(|x| Fail::new(format!("{x:?}")))?;
+            p.dh(&peer, &mut o).map_err(|x| Fail::setup(format!("{x:?}")))?;
             ensure!(hex::encode_upper(o) == "D6840F6B42F6EDAFD13116E0E12565202FEF8E9ECE7DCE03812464D04B9442DE", "RFC 5903 8.1 shared secret");
             acc.label("dh_rfc_vectors");
             acc.nontrivial(&"vectors");
